@@ -38,7 +38,9 @@ impl GLWEBlindRetriever {
     where
         A: GLWEInfos,
     {
-        let bit_size: usize = (u32::BITS - (size as u32 - 1).leading_zeros()) as usize;
+        // A table of a single element still needs one accumulator to hold it (`add` copies the element,
+        // `flush` returns it): without it `add_core` splits an empty slice and panics.
+        let bit_size: usize = ((u32::BITS - (size as u32 - 1).leading_zeros()) as usize).max(1);
         Self {
             accumulators: (0..bit_size).map(|_| Accumulator::alloc(infos)).collect_vec(),
             counter: 0,
